@@ -73,6 +73,10 @@ type Op struct {
 	ReadSize int
 	// ContentFault: the io.Reader given to PushBlob fails after this many bytes (-1: none).
 	ContentFault int
+	// Slow marks a listing whose consumer takes its time between items; Between, set
+	// by whoever executes the operation, is what it does there (a scheduler yield).
+	Slow    bool
+	Between func()
 }
 
 func (o *Op) String() string {
@@ -275,9 +279,12 @@ func drain(r ociregistry.BlobReader, readSize int) ([]byte, error) {
 	return buf.Bytes(), err
 }
 
-func collect[T any](seq ociregistry.Seq[T], stopAfter int) (items []T, lerr error, extra int) {
+func collect[T any](seq ociregistry.Seq[T], stopAfter int, between func()) (items []T, lerr error, extra int) {
 	done := false
 	seq(func(x T, err error) bool {
+		if between != nil && !done {
+			between()
+		}
 		if done {
 			extra++
 			return false
@@ -356,17 +363,17 @@ func Exec(ctx context.Context, r ociregistry.Interface, op *Op, h *Handles) (res
 	case DeleteTag:
 		res.Err = r.DeleteTag(ctx, op.Repo, op.Tag)
 	case Repositories:
-		res.Items, res.ListErr, res.ExtraCalls = collect(r.Repositories(ctx, op.Start), op.StopAfter)
+		res.Items, res.ListErr, res.ExtraCalls = collect(r.Repositories(ctx, op.Start), op.StopAfter, op.Between)
 		if res.Items == nil {
 			res.Items = []string{}
 		}
 	case Tags:
-		res.Items, res.ListErr, res.ExtraCalls = collect(r.Tags(ctx, op.Repo, op.Start), op.StopAfter)
+		res.Items, res.ListErr, res.ExtraCalls = collect(r.Tags(ctx, op.Repo, op.Start), op.StopAfter, op.Between)
 		if res.Items == nil {
 			res.Items = []string{}
 		}
 	case Referrers:
-		res.Descs, res.ListErr, res.ExtraCalls = collect(r.Referrers(ctx, op.Repo, op.Digest, ""), op.StopAfter)
+		res.Descs, res.ListErr, res.ExtraCalls = collect(r.Referrers(ctx, op.Repo, op.Digest, ""), op.StopAfter, op.Between)
 		if res.Descs == nil {
 			res.Descs = []ociregistry.Descriptor{}
 		}
